@@ -57,7 +57,9 @@ type NetCfg struct {
 	LatencyUs  int `json:"latency_us,omitempty"`
 	JitterUs   int `json:"jitter_us,omitempty"`
 	FragPermil int `json:"frag_permil,omitempty"`
-	Window     int `json:"window,omitempty"`
+	// CoalescePermil: 0 = derived from the scenario seed (0, 500 or 1000); -1 = never coalesce
+	CoalescePermil int `json:"coalesce_permil,omitempty"`
+	Window         int `json:"window,omitempty"`
 }
 
 type Scenario struct {
@@ -376,6 +378,12 @@ func runScenario(t *testing.T, sc *Scenario) *Result {
 			nt.MinLatency = time.Duration(sc.Net.LatencyUs) * time.Microsecond
 			nt.Jitter = time.Duration(sc.Net.JitterUs) * time.Microsecond
 			nt.FragPermil = sc.Net.FragPermil
+			switch {
+			case sc.Net.CoalescePermil > 0:
+				nt.CoalescePermil = sc.Net.CoalescePermil
+			case sc.Net.CoalescePermil == 0:
+				nt.CoalescePermil = []int{0, 500, 1000, 1000}[ssched.Sub(sc.Seed, "coalesce").Intn(4)]
+			}
 			nt.Window = sc.Net.Window
 			sos.Reset()
 			resetGlobals()
